@@ -1,5 +1,6 @@
 // Recorder for C20, part A: set_global_tbb_concurrency on the real oneTBB.  One process = one history.
-//   h_conc --out F  n1 R n2 R ...     (number = set_global_tbb_concurrency(number); R = run a parallel region)
+//   h_conc --out F  n1 R n2 R ...     (number = set_global_tbb_concurrency(number); R = run a parallel region;
+//                                      a suffix i/u/l/h/q passes the number as int/unsigned/long/unsigned short/unsigned long long)
 #include "common.hpp"
 #include <parmcb/config.hpp>
 #include <parmcb/util.hpp>
@@ -21,8 +22,15 @@ int main(int argc, char **argv) {
             tbb::parallel_for(tbb::blocked_range<size_t>(0, 1000), [&](const tbb::blocked_range<size_t> &r) { for (size_t k = r.begin(); k != r.end(); ++k) sum += (long) k; });
             emit(J().s("e", "Region").i("active", (long) act).str());
         } else {
+            // an optional suffix selects the integral type of the argument expression (a caller may hold the number as any of them)
             long n = atol(a.c_str());
-            parmcb::set_global_tbb_concurrency((std::size_t) n);
+            char ty = a.empty() ? 'z' : a[a.size() - 1];
+            if (ty == 'i') parmcb::set_global_tbb_concurrency((int) n);
+            else if (ty == 'u') parmcb::set_global_tbb_concurrency((unsigned) n);
+            else if (ty == 'l') parmcb::set_global_tbb_concurrency((long) n);
+            else if (ty == 'h') parmcb::set_global_tbb_concurrency((unsigned short) n);
+            else if (ty == 'q') parmcb::set_global_tbb_concurrency((unsigned long long) n);
+            else parmcb::set_global_tbb_concurrency((std::size_t) n);
             size_t act = tbb::global_control::active_value(tbb::global_control::max_allowed_parallelism);
             emit(J().s("e", "Set").i("n", n).i("active_after", (long) act).str());
         }
